@@ -170,7 +170,7 @@ class OutputBuffer:
 
     def v(self, s: str, write_now: bool = False) -> 'OutputBuffer':
         '''Prints a message if verbose output is enabled.'''
-        if self.verbose or self.debug:
+        if self.debug or (self.verbose and not self.json):  # Progress messages would corrupt the JSON document on stdout.
             self.info(s)
             if write_now:
                 self.write()
